@@ -11,7 +11,8 @@ LEVEL = 'exploration'
 RULE = ("case = 1-2 watchers + behaviour tape + <= 30 ops from {incr, decr, "
         "set numprocesses, restart, reload, stop, start, rm, config-file edits "
         "(watcher added / removed / changed, [circus] changed) + "
-        "reloadconfig in a third of the cases, worker exit with any "
+        "reloadconfig in a third of the cases, an on-demand watcher on a real "
+        "managed socket with client connections in a quarter, worker exit with any "
         "status 0..255 or terminating signal, death at the k-th next kernel "
         "call, periodic check, loop step, time advance}; the PUB frames are "
         "parsed after every op and at the settled end.  Non-trivial = the "
@@ -181,7 +182,7 @@ def replay(case):
 def _strategy():
     return lifecycle_cases(statuses_full=True, respawn_false=True,
                            kill_cmd=True, set_other=True, rm=True,
-                           config=True)
+                           config=True, ondemand=True)
 
 
 def plan(tier, seed):
